@@ -438,6 +438,36 @@ def m1_cmdseq(ctx: Any, prog: Program) -> None:
     ctx.check('C20.M1', bool(whole), mod, sc, 'strip_cstring returns a value', func='strip_cstring', text='strip_cstring returns')
     raw = [a for a in args if isinstance(a, ast.Attribute) and dotted(a.value) == cmd_var and a.attr in ('exe', 'args', 'ensure_file')]
     ctx.check('C20.M1', not raw, mod, packs[0], 'string fields must go through pad_string', func='write', text='cmdseq strings padded')
+    # every command of a sequence is written: the count is len() of the very collection the record loop walks, that collection is the value
+    # of the sequences mapping (not a filtered copy - Command.__bool__ means "enabled"), and no record is skipped
+    seq_loops = [l for l in walk_no_nested(wf) if isinstance(l, ast.For) and isinstance(l.iter, ast.Call) and isinstance(l.iter.func, ast.Attribute) and l.iter.func.attr == 'items' and isinstance(l.target, ast.Tuple) and len(l.target.elts) == 2
+                 and isinstance(l.target.elts[1], ast.Name)]
+    ctx.shape('C20.M1', len(seq_loops) == 1, mod, wf, 'one `for name, commands in sequences.items()` loop expected in write()', func='write', text='cmdseq every command written')
+    if len(seq_loops) == 1:
+        sl_ = seq_loops[0]
+        cvar = sl_.target.elts[1].id
+        rebinds = [x for st in sl_.body for x in ast.walk(st) if isinstance(x, ast.Name) and x.id == cvar and isinstance(x.ctx, ast.Store)]
+        # `commands = list(commands)` keeps every element; a comprehension with a condition or filter() drops some; anything else is not judged
+        for rb in list(rebinds):
+            asg_ = mod.parents.get(rb)
+            v_ = asg_.value if isinstance(asg_, ast.Assign) and len(asg_.targets) == 1 else None
+            if isinstance(v_, ast.Call) and dotted(v_.func) in ('list', 'tuple') and len(v_.args) == 1 and dotted(v_.args[0]) == cvar:
+                rebinds.remove(rb)
+            elif not ((isinstance(v_, (ast.ListComp, ast.GeneratorExp)) and any(g.ifs for g in v_.generators)) or (isinstance(v_, ast.Call) and any(isinstance(c_, ast.Call) and dotted(c_.func) == 'filter' for c_ in ast.walk(v_)))
+                      or (isinstance(v_, ast.Call) and dotted(v_.func) in ('list', 'tuple') and v_.args and isinstance(v_.args[0], (ast.ListComp, ast.GeneratorExp)) and any(g.ifs for g in v_.args[0].generators))):
+                ctx.shape('C20.M1', False, mod, rb, f'`{cvar}` is assigned again inside the sequence loop (`{U(asg_)[:60]}`): whether every command survives is not decided here', func='write', text='cmdseq every command written')
+                rebinds.remove(rb)
+        inner = [l for st in sl_.body for l in ast.walk(st) if isinstance(l, ast.For) and any(p_ is c for c in ast.walk(l) for p_ in packs)]
+        ctx.shape('C20.M1', len(inner) == 1, mod, sl_, 'one record loop containing the ST_COMMAND pack expected', func='write', text='cmdseq every command written')
+        if len(inner) == 1:
+            direct_iter = isinstance(inner[0].iter, ast.Name) and inner[0].iter.id == cvar
+            skips = [x for x in ast.walk(inner[0]) if isinstance(x, (ast.Continue, ast.Break))]
+            cnt = [c for st in sl_.body for c in ast.walk(st) if isinstance(c, ast.Call) and dotted(c.func) == 'len' and c.args and isinstance(c.args[0], ast.Name) and c.args[0].id == cvar]
+            ok_all = direct_iter and not rebinds and not skips and bool(cnt)
+            what = (f'`{cvar}` is replaced inside the loop (line {rebinds[0].lineno})' if rebinds else f'the record loop walks `{U(inner[0].iter)[:40]}`' if not direct_iter else f'the record loop is left by `{U(skips[0])}`' if skips
+                    else f'no `len({cvar})` count is written')
+            ctx.check('C20.M1', ok_all, mod, rebinds[0] if rebinds else inner[0], f'cmdseq.write does not write every command of a sequence: {what}. A truth test on a Command asks whether it is enabled, so disabled commands vanish from the '
+                      'file and parse() returns a shorter sequence', func='write', text='cmdseq every command written')
 
 
 # ---- M1 choreo binary -------------------------------------------------------------------------------------------------------------
@@ -1533,6 +1563,33 @@ def m2_smd(ctx: Any, prog: Program) -> None:
         guarded = [st for st in loops[0].body if isinstance(st, ast.If) and any(isinstance(c, ast.Call) and dotted(c.func) == 'file.write' for c in ast.walk(st))]
         ctx.check('C20.M2', bool(direct), mod, guarded[0] if guarded else loops[0], f'the {what} line is only written under `{U(guarded[0].test)[:60] if guarded else "?"}`: elements for which it is false are missing from the file, and parse_smd '
                   'has no notion of carrying a previous value forward', func='Mesh.export', text=f'smd {what} records unconditional')
+    # the `time N` line of a frame carries the key of that frame in self.animation (parse stores the frame under the number it reads): the
+    # value written is the key of the items() loop, not a position made up while writing
+    tw = [c for c in ast.walk(exp) if isinstance(c, ast.Call) and dotted(c.func) == 'file.write' and c.args and isinstance(c.args[0], ast.BinOp) and isinstance(c.args[0].left, ast.Constant)
+          and isinstance(c.args[0].left.value, bytes) and c.args[0].left.value.startswith(b'time ')]
+    ctx.shape('C20.M2', len(tw) == 1 and isinstance(tw[0].args[0].right, ast.Name), mod, exp, "the `b'time %i' % <name>` write was not found once in Mesh.export", func='Mesh.export', text='smd frame time is the animation key')
+    if len(tw) == 1 and isinstance(tw[0].args[0].right, ast.Name):
+        tname = tw[0].args[0].right.id
+        lp_t = next((a for a in _anc20(mod, tw[0], exp) if isinstance(a, ast.For) and any(isinstance(x, ast.Name) and x.id == tname for x in ast.walk(a.target))), None)
+        verdict_t: Optional[bool] = None
+        why_t = ''
+        if lp_t is not None and isinstance(lp_t.target, ast.Tuple) and lp_t.target.elts and isinstance(lp_t.target.elts[0], ast.Name) and lp_t.target.elts[0].id == tname:
+            it_t: ast.AST = lp_t.iter
+            # through a local holding the sorted list
+            if isinstance(it_t, ast.Name):
+                d_t = [a.value for a in ast.walk(exp) if isinstance(a, ast.Assign) and any(isinstance(t, ast.Name) and t.id == it_t.id for t in a.targets)]     # type: ignore[attr-defined]
+                if len(d_t) == 1:
+                    it_t = d_t[0]
+            while isinstance(it_t, ast.Call) and dotted(it_t.func) in ('sorted', 'list', 'tuple', 'reversed') and it_t.args:
+                it_t = it_t.args[0]
+            if isinstance(it_t, ast.Call) and isinstance(it_t.func, ast.Attribute) and it_t.func.attr == 'items' and dotted(it_t.func.value) == 'self.animation':
+                verdict_t = True
+            elif isinstance(it_t, ast.Call) and dotted(it_t.func) in ('enumerate', 'zip'):
+                verdict_t, why_t = False, f'`{tname}` counts `{U(lp_t.iter)[:50]}`'
+        ctx.shape('C20.M2', verdict_t is not None, mod, tw[0], f'where `{tname}` in the `time` line comes from was not recognised (expected: the key of a loop over self.animation.items())', func='Mesh.export', text='smd frame time is the animation key')
+        if verdict_t is not None:
+            ctx.check('C20.M2', verdict_t, mod, tw[0], f'Mesh.export writes `time %i` with a number made up while writing ({why_t}) instead of the frame\'s key in self.animation: parse_smd stores each frame under the number it reads, '
+                      'so an animation whose keys are not 0, 1, 2, ... comes back under other keys', func='Mesh.export', text='smd frame time is the animation key')
     # determinism: no iteration over a set of bones
     set_names: Dict[str, ast.AST] = {}
     for n in ast.walk(exp):
@@ -1601,6 +1658,8 @@ def m5_tables(ctx: Any, prog: Program) -> None:
 
 
 MUTANTS: List[Dict[str, Any]] = [
+    {'id': 'cmdseq_skips_disabled_commands', 'file': 'cmdseq.py', 'find': "    for name, commands in sequences.items():\n        file.write(pad_string(name, 128))", 'replace': "    for name, commands in sequences.items():\n        commands = list(filter(None, commands))\n        file.write(pad_string(name, 128))", 'expect': 'C20.M1', 'note': 'round 11'},
+    {'id': 'smd_frames_renumbered', 'file': 'smd.py', 'find': "        for time, frame in sorted(self.animation.items(), key=itemgetter(0)):", 'replace': "        for time, (_, frame) in enumerate(sorted(self.animation.items(), key=itemgetter(0))):", 'expect': 'C20.M2', 'note': 'round 11'},
     {'id': 'entry_parse_cached_beside_raw_block', 'file': 'choreo.py', 'find': "            self._data = Scene.parse_binary(BytesIO(data), string_pool)\n        return self._data", 'replace': "            self._parsed = Scene.parse_binary(BytesIO(data), string_pool)\n            return self._parsed\n        return self._data", 'expect': 'C20.M4'},
     {'id': 'missing_volume_read_as_symbol', 'file': 'sndscript.py', 'find': "            VOLUME.__getitem__,\n            1.0,", 'replace': "            VOLUME.__getitem__,\n            VOL_NORM,", 'expect': 'C20.M2'},
     {'id': 'ok_missing_pitch_read_as_float_enum', 'file': 'sndscript.py', 'find': "            Pitch.__getitem__,\n            100.0,", 'replace': "            Pitch.__getitem__,\n            Pitch.PITCH_NORM,", 'expect': None, 'refuse_ok': True},
